@@ -293,7 +293,7 @@ func cmdCheck(args []string) int {
 			}
 			violations++
 			name := "contract-bind"
-			rp := filepath.Join(vd, "replays", prop.ID, sanitize(fmt.Sprintf("contract_bind_%d", violations)), "replay.json")
+			rp := filepath.Join(outDir(), "replays", prop.ID, sanitize(fmt.Sprintf("contract_bind_%d", violations)), "replay.json")
 			os.MkdirAll(filepath.Dir(rp), 0o755)
 			js, _ := json.MarshalIndent(map[string]interface{}{"property": prop.ID, "obligation": name, "verdict": "the contract cannot be bound to the current code; no failing input", "verifier_output": u}, "", " ")
 			os.WriteFile(rp, js, 0o644)
@@ -318,7 +318,7 @@ func cmdCheck(args []string) int {
 		bounded = append(bounded, map[string]interface{}{"function": b.Name, "bound": b.Bound, "result": res, "cases": cases, "labelled": "bounded, not counted as proved"})
 		if res == "violation" {
 			violations++
-			rp := filepath.Join(vd, "replays", prop.ID, sanitize(b.Name)+".bounded.txt")
+			rp := filepath.Join(outDir(), "replays", prop.ID, sanitize(b.Name)+".bounded.txt")
 			os.MkdirAll(filepath.Dir(rp), 0o755)
 			os.WriteFile(rp, []byte(out), 0o644)
 			fmt.Printf("VIOLATION property=%s replay=%s\n  bounded check of %s found a failing input\n", prop.ID, rp, b.Name)
@@ -388,9 +388,9 @@ func cmdCheck(args []string) int {
 			"explanation":              "every obligation is one or more SMT queries (one per path through the function's SSA); an obligation counts as discharged only if every query is unsat",
 		},
 	}
-	os.MkdirAll(filepath.Join(vd, "evidence"), 0o755)
+	os.MkdirAll(filepath.Join(outDir(), "evidence"), 0o755)
 	out, _ := json.MarshalIndent(ev, "", " ")
-	os.WriteFile(filepath.Join(vd, "evidence", prop.ID+".json"), out, 0o644)
+	os.WriteFile(filepath.Join(outDir(), "evidence", prop.ID+".json"), out, 0o644)
 
 	fmt.Printf("%s: %d obligations (%d queries) over %d functions: %d discharged, %d known findings, %d failed; solver wall %.1fs; total %.1fs\n",
 		prop.ID, nObl, nQueries, len(funcs), discharged, len(known), len(failedNames), solveWall.Seconds(), time.Since(t0).Seconds())
